@@ -809,6 +809,15 @@ void op_end() {
   }
   sched_point(t, 0);
 }
+bool thread_done(int spec_index) {
+  Thread* t = self;
+  int slot = spec_index + 1;
+  if (slot < 1 || slot >= G.nthr || G.thr[slot].state != T_DONE)
+    return false;
+  if (managed(t))
+    vc_join(t->vc, G.thr[slot].vc);
+  return true;
+}
 void yield_hint() {
   Thread* t = self;
   if (!managed(t))
